@@ -1,5 +1,5 @@
 ENGINES = [
- {"name": "vsim", "path": "vsim/", "serves_properties": ["C14", "C15", "C16"],
+ {"name": "vsim", "path": "vsim/", "serves_properties": ["C13", "C14", "C15", "C16"],
   "kind_free_text": "deterministic simulator written for this task: seeded PRNG per run, simulated wall/monotonic clock, real tmpfs "
                     "file system behind seams that count, fail, tear and crash every call, fork-per-run driver with watchdogs, "
                     "delta-debugging shrinker, replay files; engines/ hold one workload+oracle per property, models/ the reference models"},
@@ -10,7 +10,6 @@ NOTES = ("Technique studied: deterministic simulation with fault injection only.
 def fill(check, pending):
     pending.update({
      "C08": "engine not built yet in this commit (planned: DESIGN.md section 3/C08); not claimed until it is",
-     "C13": "engine not built yet in this commit (planned: DESIGN.md section 3/C13); not claimed until it is",
      "C17": "engine not built yet in this commit (planned: DESIGN.md section 3/C17); not claimed until it is",
     })
     check("C14", "exploration",
@@ -44,3 +43,16 @@ def fill(check, pending):
           "Line-level pre-emption is a subset of CPython's real schedules (no false interleavings) but not all of them; "
           "Beaker's real locks are replaced by a lock-free reference cache backend; sampling, not proof.",
           "deterministic simulation: seeded thread schedules (baton passing at intercepted points) + history check", "DESIGN.md 3/C16")
+    check("C13", "fault_enumeration",
+          "Generated template programs (defs plain/buffered/filtered/cached/decorated/nested/with arguments, calls by name / "
+          "self. / capture(), <%call> with content, loops with loop.index witnesses, blocks, <%text filter>, includes, "
+          "inheritance, % try at arbitrary ancestors). A dry render lists every dynamic call out of generated code; EVERY one "
+          "(cap 80/program) is made to raise in turn, under 7 handler placements (none, error_handler True/False, "
+          "format_exceptions, caller of render_context, include_error_handler True/None), plus failing writes of the caller's "
+          "sink; output after the handler, Context stacks, a following write and render on the same Context, a second render of "
+          "the same Template and exception identity are compared with a reference interpreter that also must match the "
+          "fault-free render of every program.",
+          "Programs are sampled (seeded), raise points per program are enumerated; asynchronous exceptions between bytecodes "
+          "are out of scope; the reference interpreter is trusted (validated fault-free on every program).",
+          "deterministic simulation: synchronous fault injection at every call-out (crash-point enumeration) vs reference interpreter",
+          "DESIGN.md 3/C13")
